@@ -68,6 +68,7 @@ func NewCtx(prop, tier, verifDir string, p *Program) *Ctx {
 	c := &Ctx{Prop: prop, Tier: tier, P: p, VerifDir: verifDir, analysed: map[string]bool{},
 		ruleDoc: map[string]string{}, extra: map[string]interface{}{}, start: time.Now()}
 	c.loadKnown()
+	curProgram = p
 	return c
 }
 
@@ -157,6 +158,11 @@ func (c *Ctx) Finish() int {
 		}
 		return false
 	})
+	flushAnchors()
+	for _, r := range renamedAnchors() {
+		fmt.Println("ANCHOR " + r)
+		c.Assume("anchor re-identified: " + r)
+	}
 	if os.Getenv("HOPVERIF_DUMP") != "" {
 		for _, o := range c.Obs {
 			fmt.Printf("OB %s %s %s @%s -- %s\n", o.Verdict, o.Rule, o.Construct, o.Site, o.Detail)
